@@ -366,3 +366,63 @@ def c08(view, info):
                     'c08.frozen-moved',
                     '%s left frozen server %s (now %r) without being '
                     'marked' % (aname, bsrv, asrv))
+
+
+# ---------------------------------------------------------------- C02
+def fits(view, aname, now):
+    """Name of a leaf server that can take the instance, by ground truth
+    recomputed from the leaves, or None."""
+    found = fitting(view, aname, now)
+    return found[0] if found else None
+
+
+def fitting(view, aname, now):
+    """All leaf servers that can take the instance, by ground truth."""
+    cell = view.cell
+    servers, _ = tree(cell)
+    decl = view.decl_apps[aname]
+    demand = decl['demand']
+    gname = decl['group']
+    if gname is not None:
+        held = set()
+        for other, app in cell.apps.items():
+            if other != aname and app.server is not None and \
+                    view.decl_apps[other]['group'] == gname and \
+                    app.identity is not None:
+                held.add(app.identity)
+        if not set(range(view.group_count(gname))) - held:
+            return []
+    found = []
+    for sname, server in sorted(servers.items()):
+        if server.state is not scheduler.State.up:
+            continue
+        sdecl = view.decl_servers.get(sname)
+        if sdecl is None:
+            continue
+        if server_ok_for(view, sname, aname) is not None:
+            continue
+        if decl['lease'] and not now + decl['lease'] < server.valid_until:
+            continue
+        used = [0, 0, 0]
+        for other in server.apps:
+            for dim in range(3):
+                used[dim] += view.decl_apps[other]['demand'][dim]
+        if any(used[d] + demand[d] > sdecl['cap'][d] for d in range(3)):
+            continue
+        node = server
+        ok = True
+        while node is not None:
+            limit = decl['limits'].get(node.level, INF)
+            if limit != INF:
+                count = 0
+                for leaf in subtree_servers(node):
+                    for other in leaf.apps:
+                        if view.decl_apps[other]['aff'] == decl['aff']:
+                            count += 1
+                if not count < limit:
+                    ok = False
+                    break
+            node = node.parent
+        if ok:
+            found.append(sname)
+    return found
